@@ -47,7 +47,14 @@ OUTER:
 			if m.waitDirtyIncomingCh != nil && // Merger is indeed asleep.
 				(m.stackDirtyMid != nil && !m.stackDirtyMid.isEmpty()) &&
 				(m.stackDirtyTop == nil || m.stackDirtyTop.isEmpty()) {
-				m.NotifyMerger("from-persister", false)
+				// Never block here: the collection lock is held, which
+				// the merger needs before it receives the next ping.
+				// A full channel means that the merger has pings
+				// pending and will run again anyway.
+				select {
+				case m.pingMergerCh <- ping{kind: "from-persister"}:
+				default:
+				}
 			}
 
 			atomic.AddUint64(&m.stats.TotPersisterWaitBeg, 1)
